@@ -162,6 +162,16 @@ let exec (a : string array) : string option =
             Printf.sprintf "done n=%d len=%d o=%s %s" (int_of_n nb) (Array.length o) (show o) (summary_string bs)
         | STrunc -> "trunc"
         | SErr e -> "err " ^ ekind_name e)
+  | "sinflatering" ->
+      (* sinflatering <0 raw | 1 zlib> <ring len> <fill> <hex> *)
+      let data = nlist_of_array (bytes a.(4)) in
+      let r = spec_ring (num a.(1) <> 0) true (n_of_int (num a.(2))) (n_of_int (num a.(3))) data in
+      Some (match r with
+        | SDone (out, nb, bs) ->
+            let o = array_of_nlist out in
+            Printf.sprintf "done n=%d len=%d o=%s" (int_of_n nb) (Array.length o) (show o)
+        | STrunc -> "trunc"
+        | SErr e -> "err " ^ ekind_name e)
   | "sprefix" ->
       (* sprefix <hex>: raw deflate prefix; which whole blocks are present and what they expand to *)
       let data = nlist_of_array (bytes a.(1)) in
